@@ -1,4 +1,5 @@
 """C20 — match -> pointer -> patch edits exactly the matched node."""
+import re
 import jsonpath
 from jsonpath import JSONPatch
 
@@ -17,7 +18,7 @@ RULE = ("documents whose member names are digits-only, signed-number look-alikes
 TRUSTED = ["the link 'a match's parts are the node's location' is C03 (checked there and again here by resolving the parts)"]
 ASSUMPTIONS = []
 
-NAMES = ["a", "0", "1", "2", "10", "01", "-1", "+1", "-0", "-", "~", "/", "~0", "~1", "a/b", "#", "#0", "#a", "~a", "", " ", " 1",
+NAMES = ["a", "0", "1", "2", "10", "01", "-1", "+1", "-0", "-", "~", "/", "~0", "~1", "a/b", "#", "#0", "#a", "~a", "", " ", " 1", "1٣", "13", "7٧", "77", "-1٣", "1０",
          "1 ", "é", "中", "\U0001F600", "1_0", "9007199254740993", "x.y", "\\", "a\\"]
 NEWVALS = [None, 7, "new", [1], {"k": True}, True]
 
@@ -79,6 +80,17 @@ def _apply(patch, doc):
         return ["err", exc_name(e)]
 
 
+def text_route_ok(text):
+    """the pointer's string form denotes the same pointer when parsed again: no backslash (escape decoding is on by default)
+    and no digits-only member name beyond the index limit (recorded finding C04-member-name-beyond-index-limit)"""
+    if "\\" in text:
+        return False
+    for t in text.split("/")[1:]:
+        if re.fullmatch(r"-?[1-9][0-9]{15,}", t) and abs(int(t)) > 2 ** 53 - 1:
+            return False
+    return True
+
+
 def impl(case):
     doc = deep(case["doc"])
     ms = [m for m in jsonpath.finditer(case["query"], doc) if list(m.parts) == case["loc"]]
@@ -91,6 +103,12 @@ def impl(case):
     out["replace"] = _apply(JSONPatch().replace(ptr, deep(case["new"])), deep(case["doc"]))
     out["remove"] = _apply(JSONPatch().remove(ptr), deep(case["doc"]))
     out["test_other"] = _apply(JSONPatch().test(ptr, deep(case["new"])), deep(case["doc"]))
+    # the same through the pointer's STRING form (a patch document carries text), where the text is unambiguous
+    text = str(ptr)
+    if text_route_ok(text):
+        out["replace_text"] = _apply(JSONPatch([{"op": "replace", "path": text, "value": deep(case["new"])}]), deep(case["doc"]))
+        out["remove_text"] = _apply(JSONPatch().remove(text), deep(case["doc"]))
+        out["test_text"] = _apply(JSONPatch([{"op": "test", "path": text, "value": deep(m.obj)}]), deep(case["doc"]))
     return out
 
 
@@ -110,6 +128,10 @@ def decode(sx, case):
             "replace": ["ok", canon_unordered(SX.canon(SX.sx2j(rep[1])))] if rep != "none" else "error",
             "remove": ["ok", canon_unordered(SX.canon(SX.sx2j(rem[1])))] if rem != "none" else "error",
             "test_other": ["ok", d] if s[4] == "true" else "test-failed"}
+    if text_route_ok(model["pointer"]):
+        for a, b in (("replace_text", "replace"), ("remove_text", "remove"), ("test_text", "test")):
+            model[a] = model[b]
+            spec[a] = spec[b]
     return {"model": model, "spec": spec, "in_domain": wf[1] == "true"}
 
 
@@ -117,7 +139,9 @@ def project(case, res, dec=None):
     if res.get("no_such_match"):
         return res
     out = {"pointer": res["pointer"]}
-    for k in ("test", "replace", "remove", "test_other"):
+    for k in ("test", "replace", "remove", "test_other", "replace_text", "remove_text", "test_text"):
+        if k not in res:
+            continue
         r = res[k]
         if r[0] == "ok":
             out[k] = ["ok", canon_unordered(r[1])]
